@@ -85,7 +85,8 @@ def bloom(
             _bloom_key = get_cache_key(func, _name, args, kwargs)
             hashes = get_indexes(_bloom_key, number_of_buckets, index_size)
             values = await backend.get_bits(_cache_key, *hashes)
-            if values is None:
+            if values is None or len(values) != len(hashes):
+                # the backend could not tell (disabled, or unreachable with errors suppressed): nothing is known
                 return await func(*args, **kwargs)
             if possible_set(values):  # if all bits is set
                 # false positive
@@ -143,7 +144,13 @@ def dual_bloom(
                 backend.get_bits(_true_bloom_key, *indexes_true),
                 backend.get_bits(_false_bloom_key, *indexes_false),
             )
-            if true_values is None or false_values is None:
+            if (
+                true_values is None
+                or false_values is None
+                or len(true_values) != len(indexes_true)
+                or len(false_values) != len(indexes_false)
+            ):
+                # the backend could not tell (disabled, or unreachable with errors suppressed): nothing is known
                 return await func(*args, **kwargs)
             if not_set(true_values) and not_set(false_values):
                 # not set yet
